@@ -3,7 +3,7 @@
 cd /verif
 ids="$@"; [ -z "$ids" ] && ids=$(ls seeded)
 for id in $ids; do
-  prop=${id:0:3}
+  prop=$(python3 -c "import json; print(json.load(open('/verif/seeded/$id/meta.json')).get('property','?'))")
   res=$(tools/try_seed.sh /verif/seeded/$id/patch.diff $prop 2>&1 | tail -3 | tr '\n' ' ')
-  echo "$id $res"
+  echo "$id $prop $res"
 done
